@@ -39,8 +39,30 @@ int Memory::read_debug(uint32_t a) { return nondet_int(); }
    leaves an empty string), only length / locality / table-index obligations are decided */
 extern "C" char *strcat(char *d, const char *s) { return d; }
 extern "C" char *strcpy(char *d, const char *s) { d[0] = 0; return d; }
+#ifdef STRINGS_HASH
+/* the text is represented by a hash of what determines it: the sequence of format strings and their integer
+   arguments (%s arguments are themselves results of earlier formatting calls, already in the hash) */
+#include <stdarg.h>
+extern "C" { unsigned g_text_hash; }
+static void vh_fmt(const char *f, va_list ap)
+{
+  for (int i = 0; i < 40 && f[i] != 0; i++)
+  {
+    g_text_hash = g_text_hash * 31u + (unsigned char)f[i];
+    if (f[i] != '%') continue;
+    int j = i + 1;
+    while (j < 40 && ((f[j] >= '0' && f[j] <= '9') || f[j] == 'l' || f[j] == '-')) j++;
+    if (f[j] == 's') { (void)va_arg(ap, char *); }
+    else if (f[j] == 'd' || f[j] == 'x' || f[j] == 'X' || f[j] == 'o' || f[j] == 'c' || f[j] == 'u') { g_text_hash = g_text_hash * 31u + (unsigned)va_arg(ap, int); }
+    i = j;
+  }
+}
+extern "C" int snprintf(char *d, size_t n, const char *f, ...) { va_list ap; va_start(ap, f); vh_fmt(f, ap); va_end(ap); d[0] = 0; return 0; }
+extern "C" int sprintf(char *d, const char *f, ...) { va_list ap; va_start(ap, f); vh_fmt(f, ap); va_end(ap); d[0] = 0; return 0; }
+#else
 extern "C" int snprintf(char *d, size_t n, const char *f, ...) { d[0] = 0; return 0; }
 extern "C" int sprintf(char *d, const char *f, ...) { d[0] = 0; return 0; }
+#endif
 #endif
 #define VSTR(x) #x
 #define VXSTR(x) VSTR(x)
@@ -74,6 +96,9 @@ extern "C" void h_dis()
   }
 #endif
   g_base = address; g_max_off = 0; g_outside = 0; g_sel = 0;
+#ifdef STRINGS_HASH
+  g_text_hash = 0;
+#endif
   int count = DISFN(&m, address, instruction, sizeof(instruction), flags, &cmin, &cmax);
 #ifndef VERIF_CBMC
   printf("REPLAY-INFO: address=0x%x flags=0x%x endian=%d bytes=%02x %02x %02x %02x %02x %02x -> count=%d max_read_offset=%u outside=%d text='%s'\n", address, flags, m.endian, g_win[0], g_win[1], g_win[2], g_win[3], g_win[4], g_win[5], count, g_max_off, g_outside, instruction);
@@ -93,8 +118,14 @@ extern "C" void h_dis()
   for (int i = 0; i < 16; i++) ASSUME(i >= count || g_win2[i] == g_win[i]);
   char instruction2[128]; int cmin2 = 0, cmax2 = 0;
   g_sel = 1; g_outside = 0;
+#ifdef STRINGS_HASH
+  unsigned hash1 = g_text_hash; g_text_hash = 0;
+#endif
   int count2 = DISFN(&m, address, instruction2, sizeof(instruction2), flags, &cmin2, &cmax2);
   OBL(count2 == count, "C08.dis: length does not depend on any byte after the instruction");
+#ifdef STRINGS_HASH
+  OBL(g_text_hash == hash1, "C08.dis: text (format strings and their arguments) does not depend on any byte after the instruction");
+#endif
 #endif
   CANARY("h_dis end");
 }
